@@ -293,6 +293,35 @@ def versioned_batches(chk, gwbin):
             if sorted(k for _, k, _ in got) != deleted:
                 chk.fail("c19:batch-of-versions:notifications-differ", "one DeleteObjects (no version ids, versioned bucket) deleted %s; the notifications name %s" % (deleted, [(k, v) for _, k, v in got]),
                          {"deleted": deleted, "notifications": got})
+            # 3. a copy whose source names one version: the notification describes the object the copy created (its size, not 0)
+            r1 = R.req("PUT", "/evv/sized", body=b"s" * 1234); v1 = r1.headers.get("x-amz-version-id", "")
+            R.req("PUT", "/evv/sized", body=b"tiny!")
+            rc.settle(0.6); rc.take()
+            rcp = R.req("PUT", "/evv/sized-copy", headers={"x-amz-copy-source": "evv/sized?versionId=" + v1})
+            rc.settle(1.0, 10); recs = [rec for d in rc.take() for rec in json.loads(d).get("Records", [])]
+            seen = [(rec.get("eventName"), rec["s3"]["object"].get("key"), rec["s3"]["object"].get("size")) for rec in recs]
+            chk.case(("versioned-copy", "named-source-version"), True); chk.traces += 1
+            if rcp.status == 200 and [x for x in seen if x[1] == "sized-copy"] != [("s3:ObjectCreated:Copy", "sized-copy", 1234)]:
+                chk.fail("c19:copy-of-version:notification-differs", "CopyObject from evv/sized?versionId=<the 1234-byte version> to sized-copy answered 200; the notifications are %r" % (seen,),
+                         {"copy_status": rcp.status, "notifications": seen, "expected": [("s3:ObjectCreated:Copy", "sized-copy", 1234)]})
+            # 4. many uploads of keys without "/" at the same time: every notification names its own request's key with that request's size
+            import threading
+            want = {}
+            def burst(t):
+                c_ = s3c.Client(g.port, "root", "rootsecret")
+                for i in range(25):
+                    k_ = "f%02d%03d" % (t, i); n_ = 10 + t * 40 + i
+                    if c_.req("PUT", "/evv/" + k_, body=b"z" * n_).status == 200: want[k_] = n_
+            ths = [threading.Thread(target=burst, args=(t,)) for t in range(10)]
+            for t in ths: t.start()
+            for t in ths: t.join()
+            rc.settle(1.5, 20); recs = [rec for d in rc.take() for rec in json.loads(d).get("Records", [])]
+            gotb = sorted((rec["s3"]["object"].get("key"), rec["s3"]["object"].get("size")) for rec in recs)
+            chk.case(("concurrent-flat-keys", len(want)), True); chk.traces += 1; chk.count("concurrent-flat-key-puts:%d" % len(want))
+            if gotb != sorted(want.items()):
+                wrong = [x for x in gotb if want.get(x[0]) != x[1]][:5]; missing = sorted(set(want) - set(k_ for k_, _ in gotb))[:5]
+                chk.fail("c19:concurrent-puts:notifications-differ", "%d concurrent uploads of keys without '/': notifications with a key and size that belong to no one request %r; keys without a notification %r" % (len(want), wrong, missing),
+                         {"wrong": wrong, "missing": missing, "uploads": len(want), "notifications": len(gotb)})
             chk.tie("gateway still running (versioned batches)", g.alive(), g.log_tail())
     finally:
         rc.close()
